@@ -67,3 +67,111 @@ package client
 //@ ensures calls(TT) == 1 && arg(TT,0,0) == opts
 //@ ensures ret(TT,0,1) != nil ==> result0 == nil && result1 == ret(TT,0,1)
 //@ ensures ret(TT,0,1) == nil ==> result1 == nil && result0 != nil && fresh(result0) && result0.Transport == ret(TT,0,0)
+
+// ---------------------------------------------------------------- Submit (C13, C12)
+
+//@ func (*Runtime).Submit
+//@ watch CR = call (*Runtime).createHttpRequest
+//@ watch BG = call context.Background
+//@ watch WC = call context.WithCancel
+//@ watch WT = call context.WithTimeout
+//@ watch CN = dyn phi:cancel
+//@ watch RW = call (*net/http.Request).WithContext
+//@ watch DO = call (*net/http.Client).Do
+//@ watch BC = invoke (io.Closer).Close
+//@ watch G = call (net/http.Header).Get
+//@ watch PM = call mime.ParseMediaType
+//@ watch RF = dyn field:client.Runtime.response
+//@ watch RR = invoke (runtime.ClientResponseReader).ReadResponse
+//@ requires r != nil && operation != nil && operation.Reader != nil && r.response != nil && (r.Debug ==> r.logger != nil)
+//@ assume after CR ret(CR,0,2) == nil ==> ret(CR,0,0) != nil && ret(CR,0,1) != nil
+//@ stable r.Consumers[*], operation.Client, operation.Context, operation.Reader
+//@ ensures [create] calls(CR) == 1 && arg(CR,0,0) == r && arg(CR,0,1) == operation
+//@ ensures [C12:createerr] ret(CR,0,2) != nil ==> result0 == nil && result1 == ret(CR,0,2) && calls(DO) == 0 && calls(WC) == 0 && calls(WT) == 0
+//@ ensures [C12:deadline] calls(DO) == 1 ==> calls(WC) + calls(WT) == 1 && (calls(WT) == 1 <==> ret(CR,0,0).timeout != 0) && (calls(WT) == 1 ==> arg(WT,0,1) == ret(CR,0,0).timeout)
+//@ ensures [C13:parentctx] calls(WC) == 1 ==> arg(WC,0,0) == (old(operation.Context) != nil ? old(operation.Context) : (old(r.Context) != nil ? old(r.Context) : ret(BG,0,0)))
+//@ ensures [C13:parentctx2] calls(WT) == 1 ==> arg(WT,0,0) == (old(operation.Context) != nil ? old(operation.Context) : (old(r.Context) != nil ? old(r.Context) : ret(BG,0,0)))
+//@ ensures [C12:cancel] calls(WC) + calls(WT) == 1 ==> calls(CN) == 1
+//@ ensures [C13:client] calls(DO) == 1 ==> (old(operation.Client) != nil ==> arg(DO,0,0) == old(operation.Client)) && calls(RW) == 1 && arg(DO,0,1) == ret(RW,0,0) && arg(RW,0,0) == ret(CR,0,1) && arg(RW,0,1) == (calls(WC) == 1 ? ret(WC,0,0) : ret(WT,0,0))
+//@ ensures [C12:transporterr] calls(DO) == 1 && ret(DO,0,1) != nil ==> result0 == nil && result1 == ret(DO,0,1) && calls(BC) == 0 && calls(RR) == 0
+//@ ensures [C12:close] calls(DO) == 1 && ret(DO,0,1) == nil ==> calls(BC) == 1
+//@ ensures [C13:ctheader] calls(PM) == 1 ==> calls(G) == 1 && arg(G,0,1) == "Content-Type" && arg(PM,0,0) == (ret(G,0,0) == "" ? r.DefaultMediaType : ret(G,0,0))
+//@ ensures [C13:malformed] calls(PM) == 1 && ret(PM,0,2) != nil ==> result0 == nil && result1 != nil && calls(RR) == 0
+//@ ensures [C13:consumer] calls(RR) == 1 ==> calls(PM) == 1 && ret(PM,0,2) == nil && (in(ret(PM,0,0), r.Consumers) ==> arg(RR,0,1) == r.Consumers[ret(PM,0,0)]) && (!in(ret(PM,0,0), r.Consumers) ==> in("*/*", r.Consumers) && arg(RR,0,1) == r.Consumers["*/*"])
+//@ ensures [C13:noconsumer] calls(PM) == 1 && ret(PM,0,2) == nil && !in(ret(PM,0,0), r.Consumers) && !in("*/*", r.Consumers) ==> calls(RR) == 0 && result0 == nil && result1 != nil
+//@ ensures [C13:reader] calls(RR) == 1 ==> recv(RR,0) == old(operation.Reader) && calls(RF) == 1 && arg(RF,0,0) == ret(DO,0,0) && arg(RR,0,0) == ret(RF,0,0) && result0 == ret(RR,0,0) && result1 == ret(RR,0,1)
+//@ ensures [C13:read] calls(PM) == 1 && ret(PM,0,2) == nil && (in(ret(PM,0,0), r.Consumers) || in("*/*", r.Consumers)) ==> calls(RR) == 1
+
+// ---------------------------------------------------------------- response.go (C13): projections of the HTTP response
+
+//@ func (response).Code
+//@ requires r.resp != nil
+//@ ensures result == r.resp.StatusCode
+//@ assigns \nothing
+//@ func (response).Message
+//@ requires r.resp != nil
+//@ ensures result == r.resp.Status
+//@ assigns \nothing
+//@ func (response).Body
+//@ requires r.resp != nil
+//@ ensures result == r.resp.Body
+//@ assigns \nothing
+//@ func (response).GetHeader
+//@ watch HG = call (net/http.Header).Get
+//@ requires r.resp != nil
+//@ ensures calls(HG) == 1 && arg(HG,0,0) == r.resp.Header && arg(HG,0,1) == name && result == ret(HG,0,0)
+//@ assigns \nothing
+//@ func (response).GetHeaders
+//@ watch HV = call (net/http.Header).Values
+//@ requires r.resp != nil
+//@ ensures calls(HV) == 1 && arg(HV,0,0) == r.resp.Header && arg(HV,0,1) == name && result == ret(HV,0,0)
+//@ assigns \nothing
+
+// ---------------------------------------------------------------- auth_info.go, default authentication (C14)
+
+//@ func BasicAuth$1
+//@ watch EN = call (*encoding/base64.Encoding).EncodeToString
+//@ watch SH = invoke (runtime.ClientRequest).SetHeaderParam
+//@ requires r != nil
+//@ ensures [C14:basic] calls(EN) == 1 && arg(EN,0,0) == old(base64.StdEncoding) && calls(SH) == 1 && arg(SH,0,0) == "Authorization" && argv(SH,0,1,0) == "Basic " + ret(EN,0,0) && result == ret(SH,0,0)
+
+//@ func BearerToken$1
+//@ watch SH = invoke (runtime.ClientRequest).SetHeaderParam
+//@ requires r != nil
+//@ ensures [C14:bearer] calls(SH) == 1 && arg(SH,0,0) == "Authorization" && argv(SH,0,1,0) == "Bearer " + token && result == ret(SH,0,0)
+
+//@ func APIKeyAuth$1
+//@ watch SQ = invoke (runtime.ClientRequest).SetQueryParam
+//@ requires r != nil
+//@ ensures [C14:query] calls(SQ) == 1 && arg(SQ,0,0) == name && argv(SQ,0,1,0) == value && result == ret(SQ,0,0)
+
+//@ func APIKeyAuth$2
+//@ watch SH = invoke (runtime.ClientRequest).SetHeaderParam
+//@ requires r != nil
+//@ ensures [C14:header] calls(SH) == 1 && arg(SH,0,0) == name && argv(SH,0,1,0) == value && result == ret(SH,0,0)
+
+//@ func APIKeyAuth
+//@ watch C1 = closure APIKeyAuth$1
+//@ watch C2 = closure APIKeyAuth$2
+//@ ensures [C14:location] (in == "query" ==> calls(C1) == 1 && captured(C1,0,"name") == name && captured(C1,0,"value") == value && result == boxas(ret(C1,0,0), "runtime.ClientAuthInfoWriterFunc")) && (in != "query" && in == "header" ==> calls(C2) == 1 && captured(C2,0,"name") == name && captured(C2,0,"value") == value && result == boxas(ret(C2,0,0), "runtime.ClientAuthInfoWriterFunc")) && (in != "query" && in != "header" ==> result == nil)
+
+// Compose: every non-nil writer is applied in order until one fails.
+//@ func Compose$1
+//@ watch AR = invoke (runtime.ClientAuthInfoWriter).AuthenticateRequest tag rangeindex+1
+//@ stable auths[*]
+//@ ensures [C14:compose] forall i int :: called(AR,i) ==> 0 <= i && i < len(auths) && auths[i] != nil && recv(AR,i) == auths[i] && arg(AR,i,0) == r
+//@ ensures [C14:order] forall i int, j int :: called(AR,j) && 0 <= i && i < j && auths[i] != nil ==> called(AR,i) && ret(AR,i,0) == nil
+//@ ensures [C14:all] result == nil ==> forall i int :: 0 <= i && i < len(auths) && auths[i] != nil ==> called(AR,i) && ret(AR,i,0) == nil
+//@ ensures [C14:fail] result != nil ==> exists i int @try(rangeindex+1) :: called(AR,i) && result == ret(AR,i,0)
+//@ loop 0 invariant forall i int :: called(AR,i) ==> 0 <= i && i <= rangeindex && auths[i] != nil && recv(AR,i) == auths[i] && arg(AR,i,0) == r && ret(AR,i,0) == nil
+//@ loop 0 invariant forall i int :: 0 <= i && i <= rangeindex && auths[i] != nil ==> called(AR,i)
+
+// the transport-wide default credential applies only when the operation has none and no Authorization header is set
+//@ func (*Runtime).createHttpRequest$1
+//@ watch GH = invoke (runtime.ClientRequest).GetHeaderParams
+//@ watch HG = call (net/http.Header).Get
+//@ watch DA = invoke (runtime.ClientAuthInfoWriter).AuthenticateRequest
+//@ requires req != nil && r != nil && r.DefaultAuthentication != nil
+//@ ensures [C14:probe] calls(GH) == 1 && recv(GH,0) == req && calls(HG) == 1 && arg(HG,0,0) == ret(GH,0,0) && arg(HG,0,1) == "Authorization"
+//@ ensures [C14:preset] ret(HG,0,0) != "" ==> result == nil && calls(DA) == 0
+//@ ensures [C14:default] ret(HG,0,0) == "" ==> calls(DA) == 1 && recv(DA,0) == r.DefaultAuthentication && arg(DA,0,0) == req && arg(DA,0,1) == reg && result == ret(DA,0,0)
